@@ -11,7 +11,7 @@ tokens for objects with unusual behaviour (None, falsy, raising __eq__/__bool__/
 library knows, BaseException-only errors); a case may switch debug options on (KEEP_DEPENDENCIES is part of the model,
 the DUMP_* / profiling options must not change anything); batches of 17 - 300 items form a family of their own.
 A case of the harness subclass may give `_cancel()` - the protected hook BatchBase._computed calls - an Exception to raise
-(key `hook`; model Lib/BatchingHook.lean): the code as it is then violates C11 (OPEN FINDING user/cancel-hook-raises).
+(key `hook`; model Lib/BatchingHook.lean): before /repo fix f2f3435 the code then violated C11 (finding user/cancel-hook-raises, repaired: the hook is now treated like an on_computed callback; the model follows the repaired code, C11_spec_holds_hook).
 The family `reenter` (a flush body or a completion handler that cancels the batch it is called from) lies outside the
 model: it is sent to the driver in mode `batchingx` and judged by the observer (mode rx) and a direct expectation only.
 
@@ -152,10 +152,9 @@ ASSUMPTIONS = [
     "is still False; reproduced on the current tree: runs=2) - not generated, not modelled, no theorem",
     "the protected hook `_try_switch_active_batch()` only installs a fresh batch (its docstring: 'Must never throw an "
     "error').  The hook `_cancel()` IS part of model and generator (case key `hook`: the harness subclass's _cancel() "
-    "raises an Exception token 1-4; model Lib/BatchingHook.lean stepH): HYPOTHESIS `hook = none` of "
-    "C11_spec_holds_partial, necessity witness C11_cancel_hook_counterexample = the OPEN FINDING "
-    "`user/cancel-hook-raises` (cancel() raises, items pending for ever; proposed-fixes/C11-cancel-hook-raises.diff).  A `_cancel()` that "
-    "raises a BaseException which is not an Exception is not generated (the proposed fix treats the hook like an "
+    "raises an Exception token 1-4; model Lib/BatchingHook.lean stepH): covered without hypothesis by C11_spec_holds_hook since /repo fix f2f3435 (before it: "
+    "cancel() raised and the items stayed pending for ever, finding `user/cancel-hook-raises`).  A `_cancel()` that "
+    "raises a BaseException which is not an Exception is not generated (the fix treats the hook like an "
     "on_computed callback, futures.py:131-140: Exceptions are reported and swallowed, BaseExceptions propagate); "
     "DebugBatch._cancel is library code (a debug line) and has no hook in the model",
     "the interpreter runs with assertions enabled: 'no item can be added to a finished batch' is an `assert` in "
